@@ -190,12 +190,17 @@ def chain_obs(timeout):
     obs = []
     DMAX = 20
     # chain X1 <- X2 <- ... <- Xd, the failure sits in X1
-    kinds = {'unknown function': '=NOSUCHFUNC(1)', 'python error': '=LEFT()', 'error value': '=1/0'}
+    kinds = {'unknown function': '=NOSUCHFUNC(1)', 'python error': '=LEFT()', 'error value': '=1/0',
+             'unknown function via IF': '=NOSUCHFUNC(1)', 'python error via AND/OR/NOT': '=LEFT()', 'cycle via IF': '=IF(TRUE,A1,0)'}
+    hops = {'unknown function via IF': ['=IF(TRUE,A{p},0)', '=IF(FALSE,0,A{p})+0'],
+            'python error via AND/OR/NOT': ['=AND(TRUE,A{p})', '=OR(FALSE,A{p})', '=NOT(A{p})'],
+            'cycle via IF': ['=IF(TRUE,A{p},0)']}
     models = {}
     for kind, f in kinds.items():
         cells = {'A1': f}
         for d in range(2, DMAX + 1):
-            cells[f'A{d}'] = f'=A{d - 1}+1'
+            hs = hops.get(kind, ['=A{p}+1'])
+            cells[f'A{d}'] = hs[d % len(hs)].format(p=d - 1)
         models[kind] = mk(cells)
 
     def mk_h(kind):
@@ -209,6 +214,8 @@ def chain_obs(timeout):
                 return False
             except Exception as e:
                 if kind == 'error value':
+                    return False
+                if kind.startswith('cycle') and 'ycle' not in str(e):
                     return False
                 return len(str(e)) <= 400 + 40 * d * d
             return kind == 'error value' and is_err(r, XE.DivZeroExcelError)
